@@ -772,6 +772,10 @@ def do_directions(part, start, end, counter):
     )
 
     for direction in directions:
+        if direction.start.t == direction.end.t:
+            # the stop of a direction without length is written right after
+            # its start (below), not before it
+            continue
         text = direction.raw_text or direction.text
         e0 = etree.Element("direction")
         e1 = etree.SubElement(e0, "direction-type")
@@ -883,6 +887,27 @@ def do_directions(part, start, end, counter):
 
             elem = (direction.start.t, None, e0)
             result.append(elem)
+
+            if (
+                isinstance(direction, score.DynamicDirection)
+                and direction.end is not None
+                and direction.end.t == direction.start.t
+                and text not in DYN_DIRECTIONS
+            ):
+                # a direction without length: its stop follows at once
+                e0 = etree.Element("direction")
+                e1 = etree.SubElement(e0, "direction-type")
+                if getattr(direction, "wedge", False):
+                    number = range_number_from_counter(direction, "wedge", counter)
+                    etree.SubElement(
+                        e1, "wedge", number="{}".format(number), type="stop"
+                    )
+                else:
+                    number = range_number_from_counter(direction, "dashes", counter)
+                    etree.SubElement(
+                        e1, "dashes", number="{}".format(number), type="stop"
+                    )
+                result.append((direction.end.t, None, e0))
 
     return result
 
